@@ -315,16 +315,11 @@ func (n *networkTopology) replicaMap(tokenRing *tokenRing) tokenRingReplicas {
 		replicaRing = append(replicaRing, hostTokens{th.token, replicas})
 	}
 
-	dcsWithReplicas := 0
-	for _, dc := range n.dcs {
-		if dc > 0 {
-			dcsWithReplicas++
-		}
-	}
-
-	if dcsWithReplicas == len(dcRacks) && len(replicaRing) != len(tokens) {
-		panic(fmt.Sprintf("token map different size to token ring: got %d expected %d", len(replicaRing), len(tokens)))
-	}
+	// replicaRing has no entry for tokens owned by hosts in datacenters without
+	// replicas (rf 0 or not named by the keyspace), replicasFor resolves those to
+	// the next token that has one. That is also the case when the keyspace names
+	// datacenters which are not (yet) part of the ring, so the number of
+	// datacenters with replicas says nothing about the size of replicaRing.
 
 	return replicaRing
 }
